@@ -74,7 +74,7 @@ SIG = {
                      'facts': ['result == ite(n <= 0, b"", sp108_stream(fid, kin, label, context, lbits, n - 1) + sp108_K(fid, kin, label, context, lbits, n))']},
     'sp108_K': 'bytes',
     # ---- RFC 7914 ---------------------------------------------------------------------------------------------------
-    # B'_0 || ... || B'_{n-1},  B'_i = scryptROMix(r, B_i, N),  B_i = b[128*r*i : 128*r*(i+1)]
+    # B'_0 || ... || B'_{n-1},  B'_i = scryptROMix(r, B_i, N),  B_i = b[blen*i : blen*(i+1)]
     'scrypt_mix': {'sort': 'bytes', 'uf': True,
                    'facts': ['result == ite(n <= 0, b"", scrypt_mix(b, blen, N, n - 1) + romix(N, b[blen * (n - 1):blen * n]))']},
     'is_pow2_below_2_32': 'bool', 'scrypt_params_ok': 'bool', 'scrypt': 'bytes',
